@@ -789,7 +789,14 @@ func (g *bgen) addAnonPointers(root O) {
 		ref := O{"$ref": Frag(t...)}
 		g.Label("anon-pointer")
 		g.Label("anon-pointer:" + t[0])
-		switch g.Int(0, 4) {
+		switch g.Int(0, 7) {
+		case 5:
+			// held inside an inline complex schema of a response (which full flatten names first)
+			paths[fmt.Sprintf("/ptr%d", i)] = O{"get": O{"responses": O{"200": O{"description": "p", "schema": O{"type": "object", "properties": O{"first": ref, "n": O{"type": "integer"}}}}}}}
+		case 6:
+			paths[fmt.Sprintf("/ptr%d", i)] = O{"put": O{"parameters": A{O{"name": "b", "in": "body", "schema": O{"type": "array", "items": A{O{"type": "string"}, ref}}}}, "responses": O{"204": O{"description": "n"}}}}
+		case 7:
+			defs[fmt.Sprintf("aholder%d", i)] = O{"type": "object", "properties": O{"inner": O{"type": "object", "properties": O{"h": ref}}}}
 		case 0:
 			paths[fmt.Sprintf("/ptr%d", i)] = O{"get": O{"responses": O{"200": O{"description": "p", "schema": ref}}}}
 		case 1:
